@@ -25,6 +25,7 @@ package main
 import (
 	"fmt"
 	"go/ast"
+	"go/constant"
 	"go/token"
 	"go/types"
 	"sort"
@@ -328,6 +329,21 @@ func (c *fctx) sentinel20(id *ast.Ident, o types.Object) (string, bool) {
 	t.global[name] = true
 	t.errDefs = append(t.errDefs, fmt.Sprintf("\n(* var %s = %s : a sentinel error (nil = 0) *)\nDefinition %s : Z := %d.\n", v.Name(), "errors.New(...)", name, len(t.errCodes)))
 	return name, true
+}
+
+// asciiConst20: e is a constant string of ASCII characters only (its rune starts are exactly its byte indices)
+func (c *fctx) asciiConst20(e ast.Expr) bool {
+	tv, ok := c.t.info.Types[e]
+	if !ok || tv.Value == nil || tv.Value.Kind() != constant.String {
+		return false
+	}
+	s := constant.StringVal(tv.Value)
+	for i := 0; i < len(s); i++ {
+		if s[i] >= 0x80 {
+			return false
+		}
+	}
+	return true
 }
 
 func isByteSlice(ty types.Type) bool {
